@@ -18,15 +18,24 @@
 (*   key, and falls into its cursor-down branch when that child is unselectable) and            *)
 (*  "staleWalker" (a far jump leaves the walker on the old position at the next layout)         *)
 (* must be refuted (the driver runs them and demands the violation).                            *)
+(* Columns geometry: every column is ColW cells wide, columns are Div cells apart, a Columns    *)
+(* child is RowW cells wide.  When the columns do not all fit, those left of the ones that fit  *)
+(* up to the focus are hidden (width 0), as Columns.column_widths lays them out.  Up / down in  *)
+(* the Pile that lands on a Columns sends the cursor into it at some column c of the row (the   *)
+(* Pile's preferred column: any): the Columns focuses the selectable column the coordinate      *)
+(* names (FocusTreeOps!MovePicks), or refuses when none of the listed columns is selectable.    *)
+(* Wrong design "shownIndex": the search runs over the shown columns only and its index INTO    *)
+(* THAT LIST is assigned to the focus (k hidden columns: the focus lands k columns too far left) *)
 EXTENDS FocusTreeOps
 
-CONSTANTS MaxKids, ListLen, View, Wide, Variant
+CONSTANTS MaxKids, ListLen, View, Wide, Variant, ColW, RowW, Div
 
 VARIABLES mode, kids, pf, cf,        \* kids: children; pf: root focus (Pile focus / walker position); cf: focus per Columns child
           pend, top,                  \* ListBox: old position while an assignment awaits the next layout (-1: none); first visible item
+          mv,                         \* the cursor moves into Columns the last step made (records of FocusTreeOps!MoveOk)
           op, pre, key, ate, ret, recv, want    \* the last step: what it was, table before it, key sent, a leaf consumed it, what came back,
                                                 \* ids the key was offered to, index a valid assignment asked for (-1: none)
-vars == <<mode, kids, pf, cf, pend, top, op, pre, key, ate, ret, recv, want>>
+vars == <<mode, kids, pf, cf, pend, top, mv, op, pre, key, ate, ret, recv, want>>
 
 \* a child is <<"leaf", <<sel>>, eats>> or <<"cols", <<sel...>>, 0>>
 Leaves == {<<"leaf", <<0>>, 0>>, <<"leaf", <<1>>, 0>>, <<"leaf", <<1>>, 1>>}
@@ -62,10 +71,10 @@ Init == /\ mode \in {"pile", "lb"}
         /\ kids \in (IF mode = "pile" THEN PileShapes ELSE ListShapes)
         /\ pf = IF kids = <<>> THEN -1 ELSE 0
         /\ cf = [i \in 1..Len(kids) |-> IF IsCols(kids[i]) /\ Len(kids[i][2]) > 0 THEN 0 ELSE -1]
-        /\ pend = -1 /\ top = 0
+        /\ pend = -1 /\ top = 0 /\ mv = <<>>
         /\ op = "init" /\ pre = <<>> /\ key = "-" /\ ate = 0 /\ ret = "-" /\ recv = {} /\ want = -1
 
-NoKey == key' = "-" /\ ate' = 0 /\ ret' = "-" /\ recv' = {}
+NoKey == key' = "-" /\ ate' = 0 /\ ret' = "-" /\ recv' = {} /\ mv' = <<>>
 
 (* ---- Pile root ------------------------------------------------------------------------------------------------------------ *)
 VTarget(dir) ==   \* up / down in the Pile: nearest selectable sibling in that direction (0-based), -1: none
@@ -76,7 +85,26 @@ HTarget(dir) ==   \* left / right in the focus Columns
       cands == {j \in 1..Len(row) : row[j] = 1 /\ (IF dir = "right" THEN j - 1 > cur ELSE j - 1 < cur)}
   IN IF cands = {} THEN -1 ELSE IF dir = "right" THEN Min(cands) - 1 ELSE Max(cands) - 1
 
-PileKey(k) ==
+(* the widths column_widths() answers for Columns child i: columns are taken from the left while they fit, but always up to the     *)
+(* focus; then columns are dropped (width 0) from the left until the rest fits; columns cut off on the right are not listed           *)
+NFit == (RowW + Div) \div (ColW + Div)
+RowWidths(i) == LET n == Len(kids[i][2])
+                    inc == Max({Min({n, NFit}), cf[i] + 1})
+                    hid == Max({0, inc - NFit})
+                IN [j \in 1..inc |-> IF j <= hid THEN 0 ELSE ColW]
+MoveAsk(i, c) == LET ws == RowWidths(i) IN
+  [id |-> 10 * i, widths |-> ws, sel |-> SubSeq(kids[i][2], 1, Len(ws)), acc |-> [j \in 1..Len(ws) |-> 1], div |-> Div,
+   colk |-> "int", col |-> c, before |-> cf[i]]
+\* the column (1-based) the Columns focuses, 0: refused
+MovePick(i, c) == LET m == MoveAsk(i, c)  P == MovePicks(m, 1)
+                      hid == Cardinality({j \in 1..Len(m.widths) : m.widths[j] = 0})
+                  IN IF P = {} THEN 0
+                     ELSE IF Variant = "shownIndex" /\ SetMax(P) > hid THEN SetMax(P) - hid     \* index among the shown columns
+                     ELSE SetMax(P)
+MoveDone(i, c) == LET p == MovePick(i, c) IN
+  MoveAsk(i, c) @@ [ret |-> IF p = 0 THEN 0 ELSE 1, after |-> IF p = 0 THEN cf[i] ELSE p - 1]
+
+PileKey(k, c) ==
   LET fsel   == pf >= 0 /\ ChildSel(kids[pf + 1])
       iscols == pf >= 0 /\ IsCols(kids[pf + 1])
       eaten  == fsel /\ ~iscols /\ k = "x" /\ kids[pf + 1][3] = 1
@@ -88,7 +116,10 @@ PileKey(k) ==
      /\ recv' = {1} \cup (IF fsel THEN {10 * (pf + 1)} ELSE {})
                     \cup (IF fsel /\ iscols /\ kids[pf + 1][2][cf[pf + 1] + 1] = 1 THEN {10 * (pf + 1) + cf[pf + 1] + 1} ELSE {})
      /\ ate' = IF eaten THEN 1 ELSE 0
-     /\ cf' = IF ht >= 0 THEN [cf EXCEPT ![pf + 1] = ht] ELSE cf
+     /\ LET into == vt >= 0 /\ IsCols(kids[vt + 1])  IN        \* moving onto a Columns: the cursor is sent into it at column c
+        /\ mv' = IF into THEN <<MoveDone(vt + 1, c)>> ELSE <<>>
+        /\ cf' = IF ht >= 0 THEN [cf EXCEPT ![pf + 1] = ht]
+                 ELSE IF into /\ MovePick(vt + 1, c) > 0 THEN [cf EXCEPT ![vt + 1] = MovePick(vt + 1, c) - 1] ELSE cf
      /\ pf' = IF vt >= 0 THEN vt ELSE pf
      /\ ret' = IF eaten \/ ht >= 0 \/ vt >= 0 THEN "none" ELSE "same"
      /\ key' = k /\ op' = "key" /\ want' = -1 /\ UNCHANGED <<mode, kids, pend, top>>
@@ -142,10 +173,10 @@ ListKey(k) ==         \* lays out first, offers the key to a selectable focus it
      /\ ate' = IF eaten THEN 1 ELSE 0
      /\ pf' = nw /\ top' = (IF nw < t THEN nw ELSE IF nw > t + View - 1 THEN nw - View + 1 ELSE t) /\ pend' = -1
      /\ ret' = IF eaten \/ nw # w THEN "none" ELSE "same"
-     /\ key' = k /\ op' = "key" /\ want' = -1 /\ UNCHANGED <<mode, kids, cf>>
+     /\ key' = k /\ op' = "key" /\ want' = -1 /\ mv' = <<>> /\ UNCHANGED <<mode, kids, cf>>
 
 Next == /\ pre' = Table
-        /\ \/ \E k \in Keys : PileKey(k) \/ ListKey(k)
+        /\ \/ \E k \in Keys : (\E c \in 0..(RowW - 1) : PileKey(k, c)) \/ ListKey(k)
            \/ \E p \in -1..Len(kids) : PileAssign(p) \/ ListAssign(p)
            \/ \E i \in 1..Len(kids) : PileDelete(i)
            \/ \E i \in 1..(Len(kids) + 1), c \in InsertKinds : PileInsert(i, c)
@@ -160,5 +191,7 @@ KeyOfferedOnPath == op = "key" => recv \subseteq Reach(pre, <<>>)
 UnhandledKeyComesBack == op = "key" => UnhandledComesBack(pre, <<>>, key, ate, ret) /\ KeyMovesOnlyNavigators(pre, Table, <<>>, <<>>, key)
 ArrowLandsOnSelectable == (op = "key" /\ key \in {"up", "down", "left", "right"}) => ArrowOnlyToSelectable(pre, Table, FALSE)
 AssignmentKept == (op = "assign" /\ want >= 0) => AssignmentTakesEffect(FocusesOf(Table), Table, <<>>, 1, want)
+\* a cursor sent into a Columns lands on the column the coordinate names, hidden columns or not
+CursorIntoColumnsOk == MovesOk(mv)
 LayoutKeeps == op = "layout" => LayoutKeepsFocus(FocusesOf(pre), Table, <<>>, <<>>)
 ==================================================================================
